@@ -19,7 +19,8 @@ RULE = ('perm: random profile, outcome under 3 random permutations of the dictio
         'order is reversed, long strings with different hash behaviour, votelib Person objects) gives the renamed outcome. hashseed: a batch of '
         'cases evaluated in subprocesses under PYTHONHASHSEED in {0,1,2,3,4,12345} (thorough: 16 seeds) with short and long candidate names: '
         'identical outcomes. symmetric: profile P plus its image under a transposition (a b): a and b are both elected, both tied or both out. '
-        'non-trivial = the outcome contains a tie or a refusal, or the profile has > 3 candidates; distinct by case hash')
+        'thorough tier: exhaustive-small-simple = EVERY simple-vote profile over <= 3 candidates with totals 0..3, every n, every permutation and the '
+        'order-reversing renaming, for all simple-vote evaluators. non-trivial = the outcome contains a tie or a refusal, or the profile has > 3 candidates; distinct by case hash')
 PARTIAL = ['order / renaming / hash-seed independence of everything except get_n_best and the additive converters is decided per explored case '
            '(C10_schulze_order_full_statement is stated, not proved); highest averages is proved order-independent and renaming-equivariant (C10_highest_averages_order / _rename)']
 TRUSTED = ['harness/c10_worker.py (subprocess evaluation under a chosen PYTHONHASHSEED)']
@@ -267,6 +268,46 @@ def symmetric_checks(ctx, stream, count, rng):
     ctx.streams[stream] = dict(cases=n, deviations=bad)
 
 
+def exhaustive_small(ctx, stream):
+    """every simple-vote profile over <= 3 candidates with totals in 0..3, every n, EVERY permutation of the insertion order and
+    the order-reversing renaming, for every simple-vote evaluator of the registry: complete coverage of that small domain"""
+    import itertools
+    reg = evalreg.registry()
+    names = [n for n, e in reg.items() if e['vtype'] == 'simple']
+    bad = n = 0
+    for m in (1, 2, 3):
+        for vals in itertools.product(range(0, 4), repeat=m):
+            prof = [[i + 1, v] for i, v in enumerate(vals)]
+            if sum(vals) == 0:
+                continue
+            for name in names:
+                e = reg[name]
+                for seats in range(1, m + 1):
+                    base = evalreg.outcome(e, prof, seats)
+                    for order in itertools.permutations(range(m)):
+                        if list(order) == list(range(m)):
+                            continue
+                        r = evalreg.outcome(e, prof, seats, order=list(order))
+                        n += 1
+                        ctx.evaluations += 1
+                        if summary(r) != summary(base):
+                            bad += 1
+                            ctx.checker_false += 1
+                            ctx.report(stream, dict(kind='perm', evaluator=name, profile=prof, n=seats, order=list(order)), str(r[1:]), str(base[1:]),
+                                       '%s: outcome depends on the insertion order of the votes' % name, known_class=known_class)
+                    r = evalreg.outcome(e, prof, seats, name=rev_name, unname=rev_unname)
+                    n += 1
+                    ctx.evaluations += 1
+                    if summary(r) != summary(base):
+                        bad += 1
+                        ctx.checker_false += 1
+                        ctx.report(stream, dict(kind='rename', evaluator=name, profile=prof, n=seats, renaming='reversed'), str(r[1:]), str(base[1:]),
+                                   '%s: outcome changes under the renaming reversed' % name, known_class=known_class)
+    ctx.dist['stream:' + stream] += n
+    ctx.streams[stream] = dict(cases=n, deviations=bad, exhaustive=True)
+    ctx.exhaustive = True
+
+
 def known_class(c, io, mo):
     """C10-schwartz-order: the Schwartz routine (known finding C06-schwartz) returns a prefix of a stable sort; with
     pairwise ties among unbeaten groups that prefix depends on the order / names"""
@@ -335,6 +376,8 @@ def explore(ctx, widen=1):
     rename_checks(ctx, 'rename', ctx.n(1200, 15000) * widen, rng)
     symmetric_checks(ctx, 'symmetric', ctx.n(1200, 15000) * widen, rng)
     hashseed_checks(ctx, 'hashseed', ctx.n(500, 4000) * widen, rng, SEEDS_Q if ctx.tier == 'quick' else SEEDS_T)
+    if ctx.tier == 'thorough':
+        exhaustive_small(ctx, 'exhaustive-small-simple')
 
 
 def replay(ctx, case, stream=None):
